@@ -89,6 +89,27 @@ def _solve_layouts(r, cop, y, v, sig, case, fam, th):
             r.violation(f'{sig}:not-elementwise', f'{fam} theta={th}: element (y={y[idx][i]}, v={v[idx][i]}) gives '
                         f'{out[i]!r} in the {lname} vector but {solo[idx][i]!r} alone', case=case)
             break
+    # vectors in which every v is the same and the y's come in a scrambled (3-cycle) order
+    m = int(round(np.sqrt(n)))
+    if m * m == n and m >= 3:
+        Y, Vv = y.reshape(m, m), v.reshape(m, m)          # [i, j] = (y = g[i], v = g[j])
+        scr = np.array([(3 * k + 1) % m if np.gcd(3, m) == 1 else (k + 2) % m for k in range(m)])
+        for j in range(m):
+            r.tr()
+            try:
+                out = np.asarray(cop.percent_point(Y[scr, j].copy(), Vv[scr, j].copy()), float)
+            except Exception as e:
+                r.violation(f'{sig}:vector-raises:{type(e).__name__}', f'{fam} theta={th}: constant-v vector raised {e}', case=case)
+                break
+            r.ev(m)
+            ref_ = solo.reshape(m, m)[scr, j]
+            if out.shape != (m,) or not np.all(np.abs(out - ref_) <= 1e-12):
+                i = int(np.argmax(np.abs(out - ref_))) if out.shape == (m,) else 0
+                r.violation(f'{sig}:not-elementwise', f'{fam} theta={th}: in a vector with constant v={Vv[0, j]} and scrambled y, '
+                            f'element y={Y[scr, j][i]} gives {out[i] if out.shape == (m,) else out!r} but {ref_[i]!r} alone',
+                            case=case)
+                break
+        r.hit('const-v-vectors')
     return solo
 
 
